@@ -171,6 +171,10 @@ def _sz_obs(chunks, reqs):
 
 def consume_sync(part, op):
     try:
+        if op.startswith('sz3:'):
+            _, n1, n2 = op.split(':')
+            chunks = [part.stream.read(int(n1)), part.stream.read(int(n2)), part.stream.read(), part.stream.read(1)]
+            return ('sz', b''.join(chunks), len(chunks[0]) <= int(n1) and len(chunks[1]) <= int(n2) and chunks[3] == b'')
         if op.startswith('sz:'):
             n, b = _sz(op)
             chunks, reqs = [part.stream.read(n)], [n]
@@ -207,6 +211,11 @@ def consume_sync(part, op):
 
 async def consume_async(part, op):
     try:
+        if op.startswith('sz3:'):
+            _, n1, n2 = op.split(':')
+            chunks = [await part.stream.read(int(n1)), await part.stream.read(int(n2)), await part.stream.read(),
+                      await part.stream.read(1)]
+            return ('sz', b''.join(chunks), len(chunks[0]) <= int(n1) and len(chunks[1]) <= int(n2) and chunks[3] == b'')
         if op.startswith('sz:'):
             n, b = _sz(op)
             chunks, reqs = [await part.stream.read(n)], [n]
@@ -318,7 +327,7 @@ def drive(kind, body, boundary, chunk, transport, ops, opts, budget=3.0):
 def exp_op(op, ctype, content, buf_limit):
     base, _, params = ctype.partition(';')
     base = base.strip()
-    if op.startswith('sz:'):
+    if op.startswith('sz:') or op.startswith('sz3:'):
         return ('sz', content, True)
     if op == 'skip':
         return None
@@ -656,6 +665,21 @@ def build_cases(tier, seed):
             f = mkform(sym, b, (cont, sym.json), (1, 2))
             add('S', form=f, ns=list(nsf(len(cont))), blocks=blocks,
                 geos=geometries(b, [('u', 0), ('u', 1), ('u', 3)], ('min', 'min1') if quick else ('min', 'min1', 'min2')))
+            if c <= 8 and cont == sym.a * len(cont) and len(cont) >= c:
+                # the same content as the LAST part, copied out in three steps: read(n1), read(n2), read() to the end
+                f2 = mkform(sym, b, (sym.json, cont), (2, 1))
+                add('S', form=f2, last=True, pairs=[(n1, n2) for n1 in range(1, c + 2) for n2 in range(1, len(cont) + 1)],
+                    geos=geometries(b, [('u', 0), ('u', 3)], ('min', 'min1')))
+        if c <= 8:
+            # reader chunks LONGER than what follows the last part (close delimiter + CRLF): a first read that leaves more
+            # than that many bytes consumed in the buffer, then a read of at least one whole chunk beyond it, then read()
+            tail = len(b) + 8
+            big = tail + 3
+            for L in (3 * big + 2, 3 * big + 5):
+                f3 = mkform(sym, b, (sym.json, sym.a * L), (2, 1))
+                add('S', form=f3, last=True,
+                    pairs=[(n1, n2) for n1 in range(tail - 1, big) for n2 in range(big - 2, 2 * big + 3)],
+                    geos=geometries(b, [('u', 0), ('u', 7)], (big,)))
     # ---- F: the whole request path (App -> req.get_media()) ---------------------------------------
     for b in bnds:
         for cs, hv in gen_part_lists(sym, b, 2, sym.core(b), 3):
@@ -767,6 +791,14 @@ def case_S(case, rep):
     f = case['form']
     body = form_body(f)
     selfcheck_form(f, body)
+    if case.get('last'):
+        for n1, n2 in case['pairs']:
+            rep.state()
+            ops = ('media', 'sz3:%d:%d' % (n1, n2))
+            exp = expected(f['parts'], ops, {}, f['style'])
+            for geo in case['geos']:
+                run_valid(rep, 'S', f, geo, ops, {}, body, exp)
+        return
     for n in case['ns']:
         for blk in case['blocks']:
             rep.state()
@@ -1112,7 +1144,7 @@ def weight(case):
     if p == 'D':
         return len(case['geos']) * len(case['settings'])
     if p == 'S':
-        return len(case['geos']) * len(case['ns']) * len(case['blocks'])
+        return len(case['geos']) * (len(case['pairs']) if case.get('last') else len(case['ns']) * len(case['blocks']))
     if p == 'E':
         return (case['hi'] - case['lo']) * len(case['geos']) * 2
     if p == 'F':
